@@ -85,4 +85,11 @@ def cross_reference(structural, semantic, note: str):
             if o.status in (VIOLATED, ERROR):
                 o.status = INFO
                 o.detail = f"structural reading inconclusive (the clause is decided by evaluation: {note}): " + o.detail
+    elif any(o.status == ERROR for o in semantic):
+        # the changed code could not be evaluated either: a form the structural rule does not recognise is then "not known", never a verdict -
+        # these rules cannot tell a restructured function from a broken one (that is why the evaluation decides)
+        for o in structural:
+            if o.status == VIOLATED:
+                o.status = ERROR
+                o.detail = "not recognised by the structural reading and not evaluable either (no verdict): " + o.detail
     return structural
